@@ -119,6 +119,9 @@ TraceStepDev_JmpImmZeroExt ==
   /\ TraceStepWith({"jmp_imm_zext"})
   /\ devs' = devs + 1 /\ rundevs' = rundevs + 1
 
+\* runs recorded from /repo's own tests may have been loaded under a verifier of the test's own
+OwnVerifierPossible == env.c.fam = "repo-tests"
+
 \* the run is over: the machine must have stopped in the same way, with the same memory
 SameMem(e) ==
   /\ e.pkt = mem[R_PKT]
@@ -144,6 +147,10 @@ TraceEnd ==
         /\ ("cl" \in CheckEngines => EngineAgrees(e.cl, FALSE))
      \/ /\ e.k = "err" /\ status.k = "err" /\ SameMem(e)
         /\ (e.class = "budget") = (status.class = "budget")
+     \* a program that is NOT well formed (a test may install its own verifier) reached a point
+     \* where no instruction semantics applies: every claim is about well-formed programs, the
+     \* implementation must only not crash (it returned an error value)
+     \/ /\ e.k = "err" /\ status.k = "stuck" /\ OwnVerifierPossible /\ ~WellFormed(Prog)
      \* the hook refused the next instruction: the machine is at its budget
      \/ /\ e.k = "err" /\ e.class = "budget" /\ Running
         /\ env.budget > 0 /\ steps >= env.budget /\ SameMem(e)
@@ -198,7 +205,7 @@ TraceInit ==
   /\ l = 1
   /\ devs = 0 /\ rundevs = 0
   /\ TLCSet(1, 1) /\ TLCSet(2, 0)
-  /\ env = [prog |-> <<>>, base |-> <<>>, helpers |-> {}, fsz |-> NoFszT, budget |-> 0, dev |-> {}, c |-> [vm |-> "none"]]
+  /\ env = [prog |-> <<>>, base |-> <<>>, helpers |-> {}, fsz |-> NoFszT, budget |-> 0, dev |-> {}, c |-> [vm |-> "none", fam |-> ""]]
   /\ mem = <<>> /\ pc = 0 /\ reg = [r \in 0..10 |-> Zero] /\ rt = [r \in 0..10 |-> "u"]
   /\ sw = {} /\ frames = <<>> /\ curFn = 0
   /\ status = [k |-> "idle", class |-> "", val |-> Zero]
@@ -218,5 +225,6 @@ TraceAccepted ==
 \* every invariant of the design is evaluated in every state the implementation went through
 TraceInv == /\ Mark
             /\ status.k \in {"run", "ok", "err"} => (DepthBound /\ FramePointerOK)
-            /\ NoStuck
+            \* C05: a program the default verifier accepted never gets stuck
+            /\ (NoStuck \/ (OwnVerifierPossible /\ ~WellFormed(Prog)))
 =============================================================================
